@@ -1,17 +1,17 @@
 SPECIFICATION Spec
 CONSTANTS
   MaxBatches = 3
-  MaxScript = 4
-  Resps = {"204", "timeout", "429", "429ra7", "400", "404", "500"}
+  MaxScript = 2
+  Resps = {"204", "500", "400"}
   Drops = {TRUE, FALSE}
   Attempts0 = {0}
   MaxAges = {1}
-  MaxTicks = 2
+  MaxTicks = 1
   SegCap = 2
-  PeriodicAdv = FALSE
-  PeriodicFix = TRUE
+  PeriodicAdv = TRUE
+  PeriodicFix = FALSE
   EnqAnywhere = TRUE
-  Record = FALSE
+  Record = TRUE
 INVARIANTS TypeOK OnlyLegalRemovals AcceptedOnly204InOrder DropOnly400 PurgeOnlyOld QueueInOrder PostInOrder WaitFollowsRule NoStrandedBatch
 VIEW View
 CHECK_DEADLOCK FALSE
